@@ -195,9 +195,27 @@ class SimT(SimBase):
             if self.cfg.get('connect_send'):
                 self.server.send(sid, self.cfg['connect_send'])
             return self._h_connect(sid, environ)
+        def pause(ev):
+            dt = self.suspend.get(ev)
+            if dt:
+                vsched.vsleep(self.sched, dt)
+
+        def hmessage(sid, data):
+            i = self._log_message(sid, data)
+            pause('message')
+            self._maybe_boom('message', i)
+
+        def hdisconnect(sid, reason):
+            i = self._log_disconnect(sid, reason)
+            pause('disconnect')
+            self._maybe_boom('disconnect', i)
+
+        def hdisconnect_legacy(sid):
+            hdisconnect(sid, '?legacy')
         self.server.on('connect', hconnect)
-        self.server.on('message', self._h_message)
-        self.server.on('disconnect', self._h_disconnect)
+        self.server.on('message', hmessage)
+        self.server.on('disconnect', hdisconnect_legacy
+                       if self.legacy_disconnect else hdisconnect)
         self.app = engineio.WSGIApp(self.server, **(app_kwargs or {}))
         if validate:
             from wsgiref.validate import validator
